@@ -11,7 +11,7 @@ RB_CLIENT = ["__CPROVER_file_local_coap_net_c_handle_request", "__CPROVER_file_l
              "coap_block_new_lg_crcv", "coap_handle_response_send_block", "coap_handle_response_get_block",
              "coap_session_free", "coap_proxy_remove_association"]
 TYPES = {"con": 0, "non": 1, "ack": 2, "rst": 3}
-NODES = {0: "nonode", 1: "same-mid", 2: "same-token", 3: "unrelated"}
+NODES = {0: "nonode", 1: "same-mid", 2: "same-token", 3: "unrelated", 4: "same-mid-other-token"}
 
 META = {
     "bounds": "one delivery through the real coap_dispatch/handle_response on a client UDP session from an arbitrary "
@@ -38,7 +38,9 @@ def cuts(real_lg_crcv=False):
 def jobs():
     js = []
     for tn in ("con", "non", "ack"):
-        for node in (0, 1, 2, 3):
+        for node in (0, 1, 2, 3, 4):
+            if node == 4 and tn == "ack":
+                continue
             js.append(Job("S1-response@%s-%s" % (tn, NODES[node]), "C07/c07.c", "c07_s1_response", UNITS, extra_src=EXTRA,
                           defines=["RTYPE=%d" % TYPES[tn], "RCODE=0x45", "NODE=%d" % node] + CUT_CLIENT, remove_bodies=RB_CLIENT, unwind=18, flags=FS, group="S1-response",
                           timeout=900, est_gb=3,
